@@ -549,7 +549,10 @@ func (i *ICMPv6Options) DecodeFromBytes(data []byte, df gopacket.DecodeFeedback)
 // SerializationBuffer, implementing gopacket.SerializableLayer.
 // See the docs for gopacket.SerializableLayer for more info.
 func (i *ICMPv6Options) SerializeTo(b gopacket.SerializeBuffer, opts gopacket.SerializeOptions) error {
-	for _, opt := range []ICMPv6Option(*i) {
+	// options are prepended one by one: walk the list backwards so that the first option ends up first
+	all := []ICMPv6Option(*i)
+	for n := len(all) - 1; n >= 0; n-- {
+		opt := all[n]
 		length := len(opt.Data) + 2
 		buf, err := b.PrependBytes(length)
 		if err != nil {
